@@ -460,7 +460,8 @@ func (s *Session) onPlay(resp *Response, req *Request) (err error) {
 		err = s.asMulticastConsumer(stream, resp)
 	}
 
-	if err == nil {
+	// 只有成功回复 200 的 PLAY 才进入播放状态；被拒绝（461/500）的请求不改变状态
+	if err == nil && resp.StatusCode == StatusOK {
 		s.status = statusPlaying
 	}
 	return
